@@ -9,3 +9,6 @@ type Box struct {
 
 // Bump mutates the box.
 func (b *Box) Bump() { b.N++ }
+
+// Counter is package-level state touched from package core.
+var Counter int
